@@ -16,7 +16,7 @@ RDLogger.DisableLog("rdApp.*")
 def real_tree(s):
     """None if rejected, else (names by id, per-node ordered [(child, label)]), or ('EXC', class name)"""
     try:
-        with contextlib.redirect_stdout(io.StringIO()):
+        with contextlib.redirect_stdout(io.StringIO()), contextlib.redirect_stderr(io.StringIO()):
             g = Glycan(s, tree_only=True)
         t = g.get_tree()
     except Exception as e:  # an escaping exception is an observable result of its own
@@ -54,7 +54,7 @@ def canon_tree(x):
 def smiles_of(s, **kw):
     """('ok', smiles) | ('exc', class)"""
     try:
-        with contextlib.redirect_stdout(io.StringIO()):
+        with contextlib.redirect_stdout(io.StringIO()), contextlib.redirect_stderr(io.StringIO()):
             return ("ok", Glycan(s, **kw).get_smiles())
     except Exception as e:
         return ("exc", type(e).__name__)
